@@ -263,6 +263,10 @@ def run_cases(modname, cases, parallel=12, case_timeout=60, group=None, scratch=
                             rest = rest[1:]
                         if rest:
                             pending.append((rest[0], rest[-1] + 1))
+                elif len(done) < len(cids) and not (stop_after_violations and n_viol >= stop_after_violations):
+                    # the slice ended normally but some of its results are not there (e.g. the scratch directory was removed under it):
+                    # those cases were not observed -> inconclusive, never silently "held"
+                    lost.extend(c for c in cids if c not in done)
     finally:
         for sl in running:
             killgroup(sl.proc)
